@@ -151,6 +151,55 @@ mod proofs {
         kani::cover!(matches!(r, Ok(false)));
     }
 
+    // ------------------------------------------------------------------ Float64 zones without NaN
+    fn tle64(a: f64, b: f64) -> bool { a.total_cmp(&b) != Ordering::Greater }
+    fn tlt64(a: f64, b: f64) -> bool { a.total_cmp(&b) == Ordering::Less }
+    fn teq64(a: f64, b: f64) -> bool { a.total_cmp(&b) == Ordering::Equal }
+    /// query literals: any f64 (infinities, signed zeros, positive NaN) or NULL; negative NaN is not a literal
+    /// any parser produces and is excluded (stated assumption)
+    fn qf64() -> f64 { let f: f64 = kani::any(); kani::assume(!(f.is_nan() && f.is_sign_negative())); f }
+    fn flit64() -> ScalarValue { if kani::any() { ScalarValue::Float64(Some(qf64())) } else { ScalarValue::Float64(None) } }
+    fn fbound64() -> Bound<ScalarValue> { match kani::any::<u8>() % 3 { 0 => Bound::Unbounded, 1 => Bound::Included(ScalarValue::Float64(Some(qf64()))), _ => Bound::Excluded(ScalarValue::Float64(Some(qf64()))) } }
+    fn fsat_lo64(b: &Bound<ScalarValue>, x: f64) -> bool { match b { Bound::Unbounded => true, Bound::Included(ScalarValue::Float64(Some(s))) => tle64(*s, x), Bound::Excluded(ScalarValue::Float64(Some(s))) => tlt64(*s, x), _ => false } }
+    fn fsat_hi64(b: &Bound<ScalarValue>, x: f64) -> bool { match b { Bound::Unbounded => true, Bound::Included(ScalarValue::Float64(Some(s))) => tle64(x, *s), Bound::Excluded(ScalarValue::Float64(Some(s))) => tlt64(x, *s), _ => false } }
+
+    /// same for a Float64 zone that holds no NaN (nan_count = 0, min/max not NaN), comparisons in IEEE total order
+    /// (the order arrow's comparison kernels and datafusion's ScalarValue use); query literals may be NaN / inf / NULL.
+    #[kani::proof]
+    #[kani::unwind(4)]
+    #[kani::stub(alloc::fmt::format, fmt_stub)]
+    fn f64_zone_never_prunes_a_match() {
+        let v: Option<f64> = if kani::any() { Some(kani::any()) } else { None };
+        let null_count: u32 = kani::any(); let nan_count: u32 = 0;
+        let all_null: bool = kani::any();
+        let lo: f64 = kani::any(); let hi: f64 = kani::any();
+        kani::assume(!lo.is_nan() && !hi.is_nan() && tle64(lo, hi));
+        let (zmin, zmax) = if all_null { (ScalarValue::Float64(None), ScalarValue::Float64(None)) } else {
+            (ScalarValue::Float64(Some(lo)), ScalarValue::Float64(Some(hi))) };
+        match v {
+            None => kani::assume(null_count > 0),
+            Some(x) => { kani::assume(!all_null && !x.is_nan() && tle64(lo, x) && tle64(x, hi)); }
+        }
+        let zone = ZoneMapStatistics { min: zmin, max: zmax, null_count, nan_count };
+        let which: u8 = kani::any::<u8>() % 4;
+        let (q, matches) = match which {
+            0 => (SargableQuery::IsNull(), v.is_none()),
+            1 => { let t = flit64(); let m = match (&t, v) { (ScalarValue::Float64(Some(c)), Some(x)) => teq64(*c, x), _ => false }; (SargableQuery::Equals(t), m) }
+            2 => { let l = fbound64(); let h = fbound64(); let m = match v { Some(x) => fsat_lo64(&l, x) && fsat_hi64(&h, x), None => false }; (SargableQuery::Range(l, h), m) }
+            _ => { let a = flit64(); let b = flit64();
+                   let hit = |s: &ScalarValue, x: f64| matches!(s, ScalarValue::Float64(Some(c)) if teq64(*c, x));
+                   let m = match v { Some(x) => hit(&a, x) || hit(&b, x), None => false };
+                   (SargableQuery::IsIn(vec![a, b]), m) }
+        };
+        let r = ZoneMapIndex.evaluate_zone_against_query(&zone, &q);
+        if matches { assert!(matches!(r, Ok(true)), "zone holding a matching row is skipped"); }
+        assert!(r.is_ok(), "accepted query kinds never error");
+        kani::cover!(matches && which == 1);
+        kani::cover!(matches && which == 2);
+        kani::cover!(matches && which == 3);
+        kani::cover!(matches!(r, Ok(false)));
+    }
+
     /// a NULL literal or IS NULL only looks at null_count; a zone with NULL rows is never skipped for them,
     /// whatever the column type of the zone
     #[kani::proof]
